@@ -42,6 +42,7 @@ from concurrent.futures import ThreadPoolExecutor
 from vf import build, tlc, trace
 from vf import run as hrun
 from vf.core import InfraError
+from checks.deferred import Deferred
 
 W = max(2, int(os.environ.get("VERIF_WORKERS", "8")))
 
@@ -138,7 +139,7 @@ def _val_jobs(ctx, rd, tier):
     return jobs
 
 
-def _collect(ctx, exe, jobs, what, origin, name):
+def _collect(ctx, exe, jobs, what, origin, name, deferred=None):
     res = hrun.run_many(exe, jobs, timeout=2400, workers=W)
     events = []
     for j, h in zip(jobs, res):
@@ -149,7 +150,9 @@ def _collect(ctx, exe, jobs, what, origin, name):
             if h.san:
                 ctx.violation("MT:%s:%s" % (last.get("site", "?"), h.san), "sanitizer report while driving %s %s (last event %s):\n%s" % (what, j[1:], last, h.err[:1500]), case)
             elif h.timed_out:
-                raise InfraError("%s harness timed out (%s)" % (name, j[1:]))
+                if deferred is None:
+                    raise InfraError("%s harness timed out (%s)" % (name, j[1:]))
+                deferred.add("%s harness timed out (%s) after event %s" % (name, j[1:], last))      # a changed kernel may hang: not a verdict; what was recorded is still judged
             elif h.rc in (2, 3):
                 raise InfraError("%s harness failed rc=%d: %s" % (name, h.rc, h.err[-500:]))
             else:
@@ -324,17 +327,18 @@ def run_check(ctx, maxrows, maxth, mode, parts):
         for i, r in enumerate([33, 48, 64, 100] if ctx.quick else []):
             jobs.append([os.path.join(rd, "w%d.ndjson" % i), r, r, 64, ctx.seed + 7, "slices"])
         vjobs = _val_jobs(ctx, rd, 0 if ctx.quick else 1)
+        deferred = Deferred(ctx)
         with ThreadPoolExecutor(2) as ex:
-            f1 = ex.submit(_collect, ctx, exe, jobs, "rows..rows threads<= seed mode", origin, "drv")
-            f2 = ex.submit(_collect, ctx, exv, vjobs, "mode part nparts seed tier", origin, "val")
+            f1 = ex.submit(_collect, ctx, exe, jobs, "rows..rows threads<= seed mode", origin, "drv", deferred)
+            f2 = ex.submit(_collect, ctx, exv, vjobs, "mode part nparts seed tier", origin, "val", deferred)
             ev1, ev2 = f1.result(), f2.result()
         ctx.note("harness drive finished: %d + %d events" % (len(ev1), len(ev2)))
         mfut.result()
         if not ev1 or not ev2:
-            raise InfraError("c13 harness produced no events")
+            # (a harness that dies at once on a changed tree was reported by _collect with its crash signature; the other recording is still judged)
+            deferred.add("c13 harness produced no events (%s)" % ("drv" if not ev1 else "val"))
         events = ev1 + ev2
         n, sites, k7 = _account(ctx, events)
-        _vacuity(ctx, n, sites, k7, events)
         for ev in ev1:
             if ev["e"] == "Slices" and ev["th"] > 1 and ev["rows"] % ev["th"] != 0:
                 ctx.sample(ev, 2)
@@ -367,11 +371,16 @@ def run_check(ctx, maxrows, maxth, mode, parts):
             ctx.violation(sig, what, dict(kind="event", event=ev, driver=drv, args=args))
             return lambda e: _sig(e)[0] == sig
         with ThreadPoolExecutor(2) as ex:
-            f1 = ex.submit(trace.check_trace, ctx, "TraceSlicing", "Trace_Slicing.cfg", "Trace_Slicing_prop.cfg", ev1, on_reject, "event", 12, None, 1500, "trace_slicing")
-            f2 = ex.submit(trace.check_trace, ctx, "TraceSlicing", "Trace_Slicing.cfg", "Trace_Slicing_prop.cfg", ev2, on_reject, "event", 12, None, 1500, "trace_values")
-            f1.result(), f2.result()
+            fs = [ex.submit(trace.check_trace, ctx, "TraceSlicing", "Trace_Slicing.cfg", "Trace_Slicing_prop.cfg", ev, on_reject, "event", 12, None, 1500, lb)
+                  for ev, lb in ((ev1, "trace_slicing"), (ev2, "trace_values")) if ev]
+            for f in fs:
+                f.result()
         ctx.traces(len(jobs) + len(vjobs))
-        _selftests(ctx, events)
+        # vacuity after the validation: a harness that a changed library ended early leaves event kinds / classes empty - the recorded part decides first
+        deferred.guard(_vacuity, ctx, n, sites, k7, events)
+        if not deferred:
+            _selftests(ctx, events)
+        deferred.settle()
     finally:
         mpool.shutdown(wait=True)
         shutil.rmtree(rd, ignore_errors=True)
